@@ -121,7 +121,8 @@ def run(ctx):
     if not a or not b:
         raise Inconclusive('filter closures of get_cells / get_cells_capacity not found')
     ctx.fn(a[0]); ctx.fn(b[0])
-    ctx.floor('C13.r2', 'filter comparisons in get_cells', len(a[1]), 10)
+    # the comparisons are guards, not anchors: fewer than reviewed is a finding, not an inconclusive run
+    ctx.ob('C13.r2', GC, 'get_cells applies the ten reviewed filter comparisons (script length x2x2, data length x2, capacity x2, block range x2)', len(a[1]) >= 10, found=len(a[1]))
     ctx.ob('C13.r2', GCC, 'get_cells_capacity applies exactly the filter comparisons of get_cells', a[1] == b[1],
            only_in_get_cells=[x for x in a[1] if x not in b[1]], only_in_capacity=[x for x in b[1] if x not in a[1]])
     T = ctx.body(GT)
